@@ -1,5 +1,6 @@
 (* Lmmt/Types.v — types of the core language with closures (Lmmx): number, unit, tuple, record (fields in canonical
-   order), function (list ty) -> ty; function signatures (parameter names, types, has-default flags, return type);
+   order), function (list ty) -> ty, declared sum type (its name and, per constructor in declaration order, the payload type;
+   not recursive: `type rec` is outside); function signatures (parameter names, types, has-default flags, return type);
    typing environments.  Boolean type equality with its soundness lemma, word size of a type. *)
 From Coq Require Import List ZArith NArith Bool Lia.
 From Mimium Require Import Lmmm.Syntax Lmmx.Syntax.
@@ -10,7 +11,8 @@ Inductive ty : Type :=
 | TUnit
 | TTup (ts : list ty)
 | TRec (fs : list (ident * ty))      (* field names strictly increasing: the canonical order of Lmmx.XRecord *)
-| TFn (ps : list ty) (r : ty).
+| TFn (ps : list ty) (r : ty)
+| TSum (name : ident) (cs : list (option ty)).   (* type name = C0 | C1(t1) | ..: two sum types are equal when name AND constructors are *)
 
 (* structural induction through the nested lists *)
 Section TyInd.
@@ -20,6 +22,8 @@ Section TyInd.
   Hypothesis Htup : forall ts, Forall P ts -> P (TTup ts).
   Hypothesis Hrec : forall fs, Forall (fun ft => P (snd ft)) fs -> P (TRec fs).
   Hypothesis Hfn : forall ps r, Forall P ps -> P r -> P (TFn ps r).
+  Definition optP (o : option ty) : Prop := match o with Some t => P t | None => True end.
+  Hypothesis Hsum : forall nm cs, Forall optP cs -> P (TSum nm cs).
 
   Fixpoint ty_ind' (t : ty) : P t :=
     match t with
@@ -35,6 +39,15 @@ Section TyInd.
         Hfn ps r ((fix go (l : list ty) : Forall P l :=
                      match l with [] => Forall_nil _ | x :: l' => Forall_cons _ (ty_ind' x) (go l') end) ps)
             (ty_ind' r)
+    | TSum nm cs =>
+        Hsum nm cs ((fix go (l : list (option ty)) : Forall optP l :=
+                       match l with
+                       | [] => Forall_nil optP
+                       | o :: l' => @Forall_cons _ optP o l' (match o as o' return optP o' with
+                                                              | Some t => ty_ind' t
+                                                              | None => I
+                                                              end) (go l')
+                       end) cs)
     end.
 End TyInd.
 
@@ -54,6 +67,12 @@ Fixpoint ty_eqb (a b : ty) {struct a} : bool :=
   | TTup xs, TTup ys => list_eqb (fun x y => ty_eqb x y) xs ys
   | TRec xs, TRec ys => list_eqb (fun x y => N.eqb (fst x) (fst y) && ty_eqb (snd x) (snd y)) xs ys
   | TFn ps r, TFn qs s => list_eqb (fun x y => ty_eqb x y) ps qs && ty_eqb r s
+  | TSum n xs, TSum m ys =>
+      N.eqb n m && list_eqb (fun x y => match x, y with
+                                        | Some a', Some b' => ty_eqb a' b'
+                                        | None, None => true
+                                        | _, _ => false
+                                        end) xs ys
   | _, _ => false
   end.
 
@@ -75,6 +94,9 @@ Proof.
     eapply Forall_impl; [|exact H]. intros [f t] IH [g u] E'. cbn in *.
     apply andb_true_iff in E'. destruct E' as [E1 E2]. apply N.eqb_eq in E1. f_equal; auto.
   - apply andb_true_iff in E. destruct E as [E1 E2]. f_equal; auto. eapply list_eqb_eq; eauto.
+  - apply andb_true_iff in E. destruct E as [E1 E2]. apply N.eqb_eq in E1. f_equal; auto.
+    eapply list_eqb_eq; [|exact E2].
+    eapply Forall_impl; [|exact H]. intros [t|] IH [u|] E'; cbn in *; try discriminate; auto. f_equal. auto.
 Qed.
 
 Lemma tys_eqb_eq : forall xs ys, tys_eqb xs ys = true -> xs = ys.
@@ -92,6 +114,7 @@ Proof.
   - apply list_eqb_refl; auto.
   - apply list_eqb_refl. eapply Forall_impl; [|exact H]. intros [f t] IH. cbn in *. rewrite N.eqb_refl, IH. reflexivity.
   - rewrite list_eqb_refl, IHa; auto.
+  - rewrite N.eqb_refl. apply list_eqb_refl. eapply Forall_impl; [|exact H]. intros [t|] IH; cbn in *; auto.
 Qed.
 
 (* number of machine words of a value of the type (mir.rs word_size: a number and a closure reference are one word,
@@ -103,6 +126,12 @@ Fixpoint word_size (t : ty) : nat :=
   | TTup ts => (fix go (l : list ty) : nat := match l with [] => 0 | x :: l' => word_size x + go l' end) ts
   | TRec fs => (fix go (l : list (ident * ty)) : nat := match l with [] => 0 | x :: l' => word_size (snd x) + go l' end) fs
   | TFn _ _ => 1
+  | TSum _ cs =>      (* the tag word and room for the widest payload (mir.rs word_size of Type::UserSum) *)
+      S ((fix go (l : list (option ty)) : nat :=
+            match l with
+            | [] => 0
+            | o :: l' => Nat.max (match o with Some x => word_size x | None => 0 end) (go l')
+            end) cs)
   end.
 
 (* does a value of the type contain a closure? (typing.rs Type::contains_function) *)
@@ -111,7 +140,17 @@ Fixpoint ty_has_fn (t : ty) : bool :=
   | TFn _ _ => true
   | TTup ts => existsb (fun x => ty_has_fn x) ts
   | TRec fs => existsb (fun ft => ty_has_fn (snd ft)) fs
+  | TSum _ cs => existsb (fun o => match o with Some x => ty_has_fn x | None => false end) cs
   | _ => false
+  end.
+
+(* the type of the values of a shape (Lmmx.Syntax.shape: what a multi-word `self` is read at) *)
+Fixpoint ty_of_shape (sh : shape) : ty :=
+  match sh with
+  | SNum => TNum
+  | STup shs => TTup (map ty_of_shape shs)
+  | SRec fs => TRec (map (fun fx => (fst fx, ty_of_shape (snd fx))) fs)
+  | SSum nm cs => TSum nm (map (fun o => match o with Some x => Some (ty_of_shape x) | None => None end) cs)
   end.
 
 Lemma word_size_nums : forall n, word_size (TTup (repeat TNum n)) = n.
@@ -145,22 +184,24 @@ Fixpoint bind_tys (ps : list ident) (ts : list ty) (G : tenv) : tenv :=
 (* annotations, keyed by binder: types of lambda / function parameters (a parameter without entry is a number) and
    return types of named functions (needed only for recursive functions).  The configuration of the checker also holds the
    two comparisons it uses — of two types (if arms, assignment, named arguments, defaults, return annotation) and of the
-   argument types of a call with the parameter types.  THE checker is the strict configuration `mkAnn par ret` (type
+   argument types of a call with the parameter types.  THE checker is the strict configuration `mkAnn par ret sums` (type
    equality); the comparison harness also runs a LENIENT configuration (Lmmt/Check.v, end) that over-approximates what the
    real type checker is known to let through. *)
 Record config := mkCfg {
   an_par : list (ident * ty);
   an_ret : list (ident * ty);
+  an_sums : list (ident * list (option ty));   (* the declared sum types: name |-> payload type per constructor *)
   an_teq : ty -> ty -> bool;
   an_tseq : list ty -> list ty -> bool;
   an_len : bool }.                    (* lenient rules for operators / delay / spread calls / dsp outputs (Check.v) *)
 Definition annots := config.
-Definition mkAnn (par ret : list (ident * ty)) : config := mkCfg par ret ty_eqb tys_eqb false.
+Definition mkAnn (par ret : list (ident * ty)) (sums : list (ident * list (option ty))) : config :=
+  mkCfg par ret sums ty_eqb tys_eqb false.
 Definition an_ty (an : annots) (x : ident) : ty := match rlookup x (an_par an) with Some t => t | None => TNum end.
 
 (* the comparisons decide equality (all the soundness proof needs) *)
 Definition cfg_strict (an : config) : Prop :=
   (forall a b, an_teq an a b = true -> a = b) /\ (forall xs ys, an_tseq an xs ys = true -> xs = ys) /\ an_len an = false.
 
-Lemma mkAnn_strict : forall par ret, cfg_strict (mkAnn par ret).
+Lemma mkAnn_strict : forall par ret sums, cfg_strict (mkAnn par ret sums).
 Proof. intros. split; [|split]; cbn; [apply ty_eqb_eq|apply tys_eqb_eq|reflexivity]. Qed.
